@@ -56,6 +56,8 @@ def corr_with_canon(ctx, exe, label="corr", timeout=3000, mode="corr", env=None)
 # them.  For the verdict (and for known_findings.txt) they are folded into one key per cause.
 FAMILIES = [
     (r"\.alldefault_record$", "C19.alldefault_record"),
+    (r"\.string_with_apostrophe$", "C19.string_with_apostrophe"),
+    (r"^C19\.roundtrip_after_si\.\w+\.ANY\.si_range$", "C19.si_range_after_si"),
     (r"\.all_item_single_trailing_default$", "C19.all_item_single_trailing_default"),
     (r"\.all_item_trailing_default$", "C19.all_item_trailing_default"),
     (r"\.after_pending_default$", "C19.title_after_pending_default"),
